@@ -595,6 +595,33 @@ def run_step_type(desc, seed):
                 ref = v
             elif not close(v, ref, 1e-8):
                 add(viol, f"C09:step-type:{desc['scheme'].split(':')[0]}:{timek}", f"{tag}: the step given as {name} gives a result that differs from the step given as {lst[0][0]} by rel {rel_err(v, ref):.2e}")
+    # backward propagation: a negative real step must reproduce exp(+iH|t|) within the same envelope as the forward one
+    Hd = np.asarray(H.todense())
+    hnorm = np.abs(np.linalg.eigvalsh((Hd + Hd.conj().T) / 2)).max()
+    for dt in (-0.1, -0.5):
+        spec_b = dict(spec)
+        if spec_b.get("adaptive"):
+            spec_b["guess_dt"] = -abs(spec_b["guess_dt"])
+        psi0 = make_init(ch, sec, "random-complex", H)
+        v0 = dense_of(psi0)
+        try:
+            out = evolve_once(psi0, H, dt, make_config(spec_b))
+            nrun += 1
+        except BudgetExceeded:
+            continue
+        except Exception as e:
+            if refusal(e):
+                nref += 1
+                continue
+            add(viol, f"C09:backward:exception:{classify_exception(e)}:{desc['scheme'].split(':')[0]}", f"{tag} dt={dt}: {e!r}")
+            continue
+        ref = scipy.linalg.expm(-1j * dt * Hd) @ v0
+        err = np.linalg.norm(dense_of(out) - ref) / np.linalg.norm(ref)
+        lim = envelope(desc["scheme"], order, fam_, hnorm, abs(dt), 1)
+        if abs(dt) * hnorm > 0.8 and fam_ in ("taylor", "split", "first"):
+            lim = max(lim, 0.5)      # outside the range where the order envelopes are meaningful: only gross failures
+        if err > lim:
+            add(viol, f"C09:backward:propagator:{desc['scheme']}", f"{tag} dt={dt}: relative error {err:.3e} exceeds the envelope {lim:.3e} for a negative time step")
     return {"nontrivial": nrun >= 2, "rejected": 0, "counters": {"evolve_calls": nrun, "step_type_refused": nref}, "outcome": f"step-type:{'viol' if viol else 'ok'}",
             "viol": list(viol.values()), "sample": {"desc": desc, "runs": nrun, "refused": nref}}
 
